@@ -24,6 +24,7 @@ def run(ctx, rep):
     N.check_index_table(r4)
     r5 = rep.rule("tick+note", "event tick is the group's tick and its note is computed from the whole group", floor=1)
     N.check_time_wiring(r5)
+    N.check_note_wiring(r5)
     r6 = rep.rule("S3", "dispatcher appends each line's datum to its own kind's list in file order (first match wins)", floor=1)
     check_dispatcher(ctx, r6)
     r8 = rep.rule("recogniser", "every canonical note line (any digit count, blank padding) is accepted and decoded by the N "
